@@ -423,6 +423,22 @@ def r13h(chk, rid='R13.h'):
                 if not ok or (verdict == (True, True, ['p']) and prio == ''):
                     chk.ob(rid, rel, 'Property.validate', f'{label}: checked against {want_profiles or "the default selection"}; verdict {want} for registry answer {verdict[:2]} and priority {prio!r}', ok,
                            f'asked the registry {asked}, result {got!r}' + ('' if dict(me.__dict__) == before else '; the property was changed') + (f' (raw stores to _parentRule: {sorted(set(raw_sites))[:4]})' if 'raw store' in label else ''))
+    # an unknown name is invalid whatever it looks like: no other property's validator is borrowed
+    for uname in ('-moz-margin', '-x-margin', 'margin-', 'MARGINX', '_margin'):
+        asked = []
+
+        class Prof2(Record):
+            def __getattr__(self, a):
+                if a.isupper() or a.startswith('CSS'):
+                    return a
+                raise AttributeError(a)
+
+        prof = Prof2(knownNames=['margin'], CSS3_FONT_FACE='FONT-FACE-PROFILE', defaultProfiles=['d'], validateWithProfile=lambda nm, val, profiles=None: (asked.append((nm, val, profiles)), (True, True, ['p']))[1])
+        me = Obj(name=uname.lower(), value='2cm', parent=None, _priority='', _log=Record(error=lambda *a, **k: None, warn=lambda *a, **k: None, debug=lambda *a, **k: None), **{'__nametoken': None})
+        got = Evaluator(fn, intrinsics={'cssutils': Record(profile=prof), 'self._log.error': me._log.error, 'self._log.warn': me._log.warn, 'self._log.debug': me._log.debug}, module=m, cls='Property').run(self=me)
+        n += 1
+        ok = not isinstance(got, Raised) and not got and not [a for a in asked if a[0] != uname.lower()]
+        chk.ob(rid, rel, 'Property.validate', f'the unknown name {uname!r} is invalid; the registry is not asked about another property', ok, f'verdict {got!r}, registry asked {asked}: the verdict of Property.valid differs from validateWithProfile for the same name')
     chk.extra['validation_context_cases'] = n
 
 
